@@ -67,7 +67,7 @@ Definition image_octree (im : img) (k : N) : outcome octree :=
 (* Err 0 = the function returned None *)
 Definition palette_of_image (im : img) (k : N) : outcome (list rgb) :=
   if (img_height im =? 0) || (img_width im =? 0) then Err 0
-  else if k =? 0 then Panic 1716                            (* division by zero *)
+  else if k =? 0 then Panic 13007                            (* division by zero *)
   else
     let* t := image_octree im k in
     let* t' := prune_until k t in
